@@ -25,6 +25,9 @@ Clauses of the statement and where they are decided
   `pfactor_normalised`, `most_associated_is_argmax`, `pfactor_denominator_ge_one`; for the normalisation of
   the pinned tree `pfactor_nonneg_code`, `pfactor_normalised_partial`, `pfactor_rows_not_normalised`.
 
+* "every operating point (including after parameter sweeps)": `sweep_uses_current_partial`, `sweep_constant`,
+  `sweep_stale` (the swept time constant is stored in `dae.Tf` only by the first `TDS.init`).
+
 The harness inspects the current source to decide which variant of `_store_stats` / `calc_pfactor` it
 is running (`nNegCode`/`nNegSpec`, `pfCode`/`pfSpec`) and compares with that variant.
 -/
@@ -320,5 +323,28 @@ example : (∀ i < 2, wabs 2 (fun _ _ => 1) (fun _ _ => 1) i = wabs 2 (fun _ _ =
     wabs 2 (fun _ _ => 1) (fun _ _ => 1) 0 ≠ 0 := by decide +kernel
 /-- `W = N = I` satisfies the hypothesis of `pfactor_denominator_ge_one` -/
 example : rsum 2 (fun i => (if i = 0 then (1 : ℚ) else 0) * (if i = 0 then 1 else 0)) = 1 := by decide +kernel
+
+/-! ## 5. parameter sweeps: is the analysed operating point the current one? -/
+
+/-- a sweep over a time-constant parameter analyses the new value in its FIRST round, provided the
+time-domain routine was not initialised before.
+Full statement (fails, see `sweep_stale`): `sweepTf s vs = vs` for every `s` and `vs`. -/
+theorem sweep_uses_current_partial (tf v : ℚ) : sweepTf { initialized := false, tfStored := tf } [v] = [v] := by
+  simp [sweepTf, tdsInit]
+
+/-- once the routine is initialised every round of the sweep sees the time constant stored at that
+moment — for every list of values -/
+theorem sweep_constant (s : SwSt) (h : s.initialized = true) (vs : List ℚ) :
+    sweepTf s vs = vs.map (fun _ => s.tfStored) := by
+  induction vs with
+  | nil => simp [sweepTf]
+  | cons v vs ih =>
+    have : tdsInit s v = s := by simp [tdsInit, h]
+    simp [sweepTf, this, ih]
+
+/-- the documented example (`sweep(GENCLS.M, ..., values)`): the second value is never analysed -/
+theorem sweep_stale : sweepTf { initialized := false, tfStored := 0 } [10, 20] = [10, 10] := by decide +kernel
+
+example : ({ initialized := true, tfStored := 117 } : SwSt).initialized = true := rfl
 
 end Andes.Eig
